@@ -1004,6 +1004,11 @@ extern "C" ssize_t __wrap_read(int fd, void *buf, size_t n) {
   if (!in_lib()) return __real_read(fd, buf, n);
   HarnessScope hs_;
   const EnvAns *a = answer(K_READ);
+  if (a && a->ans == ANS_FAIL && a->err == EINTR) {  // an interrupted read is legal at any time: not a refusal
+    G.st.short_reads++;
+    errno = EINTR;
+    return -1;
+  }
   if (a && a->ans == ANS_FAIL) {
     note_fired(K_READ);
     errno = a->err ? a->err : EIO;
